@@ -122,6 +122,8 @@ type GenOpts struct {
 	Hardlinks  bool // hardlink chains
 	Devices    bool // char / block / fifo
 	Dups       bool // duplicate names (same kind class)
+	ManyChunks bool // some files have 9..20 chunks (chunk offsets on both sides of 64, 128, ...: varint key order != numeric order)
+	DupLinks   bool // with Dups: a hardlink may replace an earlier non-directory of the same name (never a link target)
 	Spellings  bool // "./", "/", "../" prefixes and trailing slashes
 	Xattrs     bool
 	RootEntry  bool // may contain an entry for the root itself ("./")
@@ -160,6 +162,7 @@ func Gen(t *rapid.T, o GenOpts) Archive {
 	usedDir := map[string]bool{}    // clean names used as explicit directory
 	usedNonDir := map[string]bool{} // clean names used as non-directory
 	frozen := map[string]bool{}     // names that must stay unique (hardlinks and their targets)
+	keepDup := map[string]bool{}    // DupLinks: hardlink names whose earlier (never linked-to) occurrences stay in the archive
 	var linkable []string           // clean names a hardlink may point to
 	isAncestorDir := func(name string) bool {
 		for _, d := range dirPool {
@@ -248,8 +251,11 @@ func Gen(t *rapid.T, o GenOpts) Archive {
 			if usedDir[name] || isAncestorDir(name) {
 				continue
 			}
-			if usedNonDir[name] && (!o.Dups || frozen[name] || kind == "hardlink") {
+			if usedNonDir[name] && (!o.Dups || frozen[name] || (kind == "hardlink" && !o.DupLinks)) {
 				continue
+			}
+			if kind == "hardlink" && usedNonDir[name] {
+				keepDup[name] = true
 			}
 			usedNonDir[name] = true
 			e.Name = spell(t, name, false, o)
@@ -267,6 +273,12 @@ func Gen(t *rapid.T, o GenOpts) Archive {
 				if sz > mx {
 					sz = mx
 				}
+				if o.ManyChunks && rapid.IntRange(0, 5).Draw(t, "many") == 0 {
+					sz = rapid.SampledFrom([]int{9*cs + 1, 12 * cs, 17*cs - 1, 20 * cs}).Draw(t, "manysize")
+					if sz > 2000 {
+						sz = 2000
+					}
+				}
 				e.Size = sz
 				e.Seed = rapid.Uint32Range(1, 1<<20).Draw(t, "seed")
 				linkable = append(linkable, name)
@@ -277,7 +289,20 @@ func Gen(t *rapid.T, o GenOpts) Archive {
 					linkable = append(linkable, name)
 				}
 			case "hardlink":
-				tgt := rapid.SampledFrom(linkable).Draw(t, "hl")
+				cands := linkable
+				if keepDup[name] {
+					cands = nil
+					for _, l := range linkable {
+						if l != name {
+							cands = append(cands, l)
+						}
+					}
+					if len(cands) == 0 {
+						delete(keepDup, name)
+						continue
+					}
+				}
+				tgt := rapid.SampledFrom(cands).Draw(t, "hl")
 				frozen[tgt] = true
 				frozen[name] = true
 				e.Link = spell(t, tgt, false, o)
@@ -301,7 +326,7 @@ func Gen(t *rapid.T, o GenOpts) Archive {
 	var out []Entry
 	for _, e := range a.Entries {
 		c := Clean(e.Name)
-		if frozen[c] && seen[c] > 1 {
+		if frozen[c] && seen[c] > 1 && !keepDup[c] {
 			seen[c]--
 			continue
 		}
